@@ -217,5 +217,11 @@ theorem selectCols_ok (i j : Nat) : ∀ (rows : List (List K)) (ws cs : List K),
     have ih := selectCols_ok i j rows ws cs hw.2 hc.2
     simp only [selectCols, hw.1, hc.1, ih]
 
+theorem lastD_mem {α : Type} : ∀ (tl : List α) (p0 : α), lastD tl p0 ∈ p0 :: tl
+  | [], _ => by simp [lastD]
+  | p1 :: tl, p0 => by
+    simp only [lastD]
+    exact List.mem_cons_of_mem _ (lastD_mem tl p1)
+
 end Ext
 end SF
